@@ -107,7 +107,7 @@ TrFind(c, t, s, e, wc) ==
 (* Range calls: some run of the fold must explain the result and the projection. *)
 RangeMatch(c, e, x, accOk) ==
   /\ LiveEq(e, x.st)
-  /\ x.st.size = e.size
+  /\ JJ({"C02", "C03", "C16", "C17", "C18"}, x.st.size = e.size)
   /\ accOk
   /\ JJ({"C01", "C18", "C04", "C05", "C19"}, ValuesEq(e, x.st))
   /\ JJ({"C11", "C14", "C18", "C19"}, CntEq(c, e, x.st))
@@ -175,6 +175,13 @@ TrObs(c, t, s, e) ==
   /\ JJ({"C11", "C14"}, CntEq(c, e, s2))
   /\ st' = Resync(c, e, s2)
 
+\* The observers as calls (concurrent logs): what they returned is what the projection shows.
+TrObserver(c, t, s, e) ==
+  /\ JJ({"C02", "C06"}, CASE e.op = "size"     -> e.ret = e.size
+                          [] e.op = "empty"    -> (e.ret = 1) = (e.size = 0)
+                          [] e.op = "capacity" -> (c.kind \in CacheKinds => e.ret = c.cap))
+  /\ TrObs(c, t, s, e)
+
 -----------------------------------------------------------------------------
 StepCfg(e) ==
   /\ cfg' = CfgOf(e)
@@ -204,6 +211,7 @@ StepOp(e) ==
                [] e.op = "uttl"  -> TrUttl(c, now, s, e)
                [] e.op = "clear" -> TrClear(c, now, s, e)
                [] e.op = "obs"   -> TrObs(c, now, s, e)
+               [] e.op \in {"size", "empty", "capacity"} -> TrObserver(c, now, s, e)
 
 TraceInit ==
   /\ l = 1
